@@ -28,6 +28,9 @@ CHECKS={
  "C09":dict(tech="runtime monitoring: reference-model oracle (independent arc length, exact-distance two-sided Hausdorff, parametric reversal identity, winding negation) over seeded curve classes x split positions",
    text="Length is compared with an independent arc length (2%), SplitAt pieces with the input (nothing extra, nothing missing, lengths add up, piece count, cut positions), Reverse with the parametric reversal of every segment, preserved length/closedness/direction and negated winding numbers.",
    note="trusted: harness/geom; 'about one percent' read as 2% for Length and 1% of the path length for cut positions; hairpin Béziers and eccentric arcs are pinned by witnesses (Length off by up to 13%)", ref="DESIGN.md §5 C09"),
+ "C04":dict(tech="runtime monitoring: distance-field oracle (exact nearest-point distance to the input path vs membership in the returned outline) over seeded paths x widths x 3 caps x 6 joins x limits x tolerances",
+   text="Stroke and Offset are run on generated open/closed paths; 72 points per case in a band around the path are classified by their exact distance to the input: closer than w/2 - tol must be filled (except beyond a butt cut / in the wedge of a non-round join), farther than w/2 + tol must not (except within the reach of a miter/arcs join or a square cap); round cap + round join have no exceptions; Offset is decided by the signed distance to the contour.",
+   note="trusted: harness/geom nearest-point search and winding numbers; effective tolerance = 8*tol for curved paths (the stroke flattens with the Flatten step formulas, C03) plus the package Tolerance of the final Settle; many input classes fail in the library and are pinned by witnesses (strata_witness_only in the evidence)", ref="DESIGN.md §5 C04"),
 }
 NA_REASON="monitor not built yet (work in progress; see DESIGN.md §5)"
 m={"version":1,"setup_cmd":"./run.sh setup",
